@@ -413,7 +413,7 @@ def c13_set_ncomp_through_old_or_reordered_views():
     try:
         for v, n in zip(views, new):
             v.set_ncomp(n)
-    except ValueError:
+    except (ValueError, AssertionError):
         refused = True
     bad = []
     if not refused:
@@ -635,6 +635,64 @@ def c19_record_i_and_compartment_set_ncomp():
         return {"kind": "an accepted call leaves a module that cannot be simulated as its tables display it", "cases": bad}
 
 
+def c13_set_ncomp_through_a_kept_view():
+    """F70, F71"""
+    jax, jnp, np, jx = _mods()
+    from jaxley.channels import HH
+    bad = []
+    cell = jx.Cell(jx.Branch(jx.Compartment(), ncomp=3), parents=[-1, 0, 0])
+    v = cell.branch(1)
+    cell.branch(1).set("radius", 2.0); cell.branch(1).set("length", 5.0); cell.branch(1).set("capacitance", 3.0)
+    try:
+        v.set_ncomp(2)
+        b = cell.branch(1).nodes
+        got = (b["radius"].tolist(), b["capacitance"].tolist(), float(b["length"].sum()))
+        if got != ([2.0, 2.0], [3.0, 3.0], 15.0):
+            bad.append({"case": "view created, then radius / length / capacitance set, then view.set_ncomp(2)", "radius, capacitance, total length": got, "expected": ([2.0, 2.0], [3.0, 3.0], 15.0)})
+    except ValueError:
+        pass
+    cell = jx.Cell(jx.Branch(jx.Compartment(), ncomp=3), parents=[-1, 0, 0])
+    v = cell.branch(1)
+    cell.insert(HH())
+    try:
+        v.set_ncomp(2)
+    except KeyError as ex:
+        bad.append({"case": "view created, channel inserted, view.set_ncomp(2)", "error": repr(ex)[:120]})
+    except ValueError:
+        pass
+    cell = jx.Cell(jx.Branch(jx.Compartment(), ncomp=3), parents=[-1, 0, 0])
+    cell.set("v", 0.1)
+    cell.branch(1).set_ncomp(3)
+    vs = cell.branch(1).nodes["v"].tolist()
+    if vs != [0.1, 0.1, 0.1]:
+        bad.append({"case": "uniform v = 0.1, set_ncomp(3)", "v": [repr(x) for x in vs]})
+    if bad:
+        return {"kind": "set_ncomp through a view kept in a variable works on a stale snapshot / does not keep a uniform voltage exactly", "cases": bad}
+
+
+def c11_negative_slices():
+    """F72: slice(a, b) over cells / branches / compartments with negative bounds counts from the largest index in view"""
+    jax, jnp, np, jx = _mods()
+    cell = jx.Cell([jx.Branch(jx.Compartment(), n) for n in (2, 3, 1, 2)], parents=[-1, 0, 0, 1])
+    g = lambda v: sorted(set(int(x) for x in v.nodes["global_branch_index"]))
+    bad = []
+    for sl, want in ((slice(None, -1), [0, 1, 2]), (slice(-1, None), [3]), (slice(-3, -1), [1, 2]), (slice(1, 3), [1, 2])):
+        try:
+            got = g(cell.branch(sl))
+        except Exception as ex:
+            got = repr(ex)[:60]
+        if got != want:
+            bad.append({"index": str(sl), "branches": got, "expected": want})
+    try:
+        got = sorted(int(i) for i in cell.branch(1).comp(slice(-2, None)).nodes.index)
+    except Exception as ex:
+        got = repr(ex)[:60]
+    if got != [3, 4]:
+        bad.append({"index": "branch(1).comp(slice(-2, None))", "rows": got, "expected": [3, 4]})
+    if bad:
+        return {"kind": "slices with negative bounds do not select the denoted cells / branches / compartments", "cases": bad}
+
+
 CASES = {
     "C06": [c06_data_set_is_functional, c06_jit_leaves_no_tracers],
     "C07": [c07_init_fn_uses_current_parameters, c07_step_fn_does_not_mutate, c07_fwd_euler_every_backend],
@@ -642,9 +700,9 @@ CASES = {
     "C09": [c09_synapse_that_reads_v_pre, c09_subviews_of_synapse_type_views],
     "C10": [c10_kept_views_read_current_tables, c11_view_older_than_group, c06_data_set_is_functional],
     "C11": [c09_subviews_of_synapse_type_views, c11_select_mask_on_view, c11_select_sorted, c11_lazy_indexing_after_scope, c11_view_older_than_group,
-            c11_insert_through_a_view_then_use_it, c11_loc_end_points_as_ints, c11_move_part_of_a_branch],
+            c11_insert_through_a_view_then_use_it, c11_loc_end_points_as_ints, c11_move_part_of_a_branch, c11_negative_slices],
     "C13": [c14_init_states_after_set_ncomp_on_assembled_cell, c13_set_ncomp_through_old_or_reordered_views, c13_single_branch_cell,
-            c13_uniform_properties_kept_exactly, c13_compartment_centres],
+            c13_uniform_properties_kept_exactly, c13_compartment_centres, c13_set_ncomp_through_a_kept_view],
     "C14": [c14_init_states_after_set_ncomp_on_assembled_cell],
     "C16": [c16_neurite_on_first_soma_point],
     "C17": [c17_affine_guard],
